@@ -676,6 +676,76 @@ static bool is_generic_list_runtime_fn(const char *name) {
     return true;
 }
 
+/* ---------------------------------------------------------------------------
+ * Left-to-right evaluation of call arguments (specification 4.9).
+ *
+ * C leaves the order in which the arguments of a call are evaluated to the compiler (gcc on
+ * x86-64: right to left), so "f(A, B)" runs B's side effects before A's.  When the order can
+ * be observed the arguments are evaluated into temporaries first, one declaration each:
+ *     ({ __auto_type _nl_s7_0 = A; __auto_type _nl_s7_1 = B; f(_nl_s7_0, _nl_s7_1); })
+ * ------------------------------------------------------------------------- */
+static int g_seq_counter = 0;
+
+static bool seq_is_literal(ASTNode *e) {
+    return e && (e->type == AST_NUMBER || e->type == AST_FLOAT || e->type == AST_STRING || e->type == AST_BOOL);
+}
+
+/* Can evaluating e neither change nor print anything?  (conservative: names, literals,
+ * field reads and operators over those) */
+static bool seq_is_effect_free(ASTNode *e) {
+    if (!e) return true;
+    if (seq_is_literal(e) || e->type == AST_IDENTIFIER) return true;
+    if (e->type == AST_FIELD_ACCESS) return seq_is_effect_free(e->as.field_access.object);
+    if (e->type == AST_PREFIX_OP) {
+        for (int i = 0; i < e->as.prefix_op.arg_count; i++) {
+            if (!seq_is_effect_free(e->as.prefix_op.args[i])) return false;
+        }
+        return true;
+    }
+    return false;
+}
+
+/* The order matters when one argument has an effect and another one is not a constant. */
+static bool seq_needed(ASTNode **args, int n) {
+    int effects = 0, non_literal = 0;
+    for (int i = 0; i < n; i++) {
+        if (!seq_is_effect_free(args[i])) effects++;
+        if (!seq_is_literal(args[i])) non_literal++;
+    }
+    return effects >= 1 && non_literal >= 2;
+}
+
+/* Opens the statement expression and declares one temporary per argument, in source order.
+ * Returns the id for seq_arg()/seq_end(), 0 when no temporaries are needed.
+ * unwrap[i] (optional) wraps argument i in gc_unwrap(). */
+static int seq_begin(WorkList *list, ASTNode **args, int n, const bool *unwrap, Environment *env) {
+    if (!seq_needed(args, n)) return 0;
+    int id = ++g_seq_counter;
+    emit_literal(list, "({ ");
+    for (int i = 0; i < n; i++) {
+        emit_formatted(list, "__auto_type _nl_s%d_%d = ", id, i);
+        if (unwrap && unwrap[i]) emit_literal(list, "gc_unwrap(");
+        build_expr(list, args[i], env);
+        if (unwrap && unwrap[i]) emit_literal(list, ")");
+        emit_literal(list, "; ");
+    }
+    return id;
+}
+
+static void seq_arg(WorkList *list, int id, int i, ASTNode *arg, bool unwrap, Environment *env) {
+    if (id) {
+        emit_formatted(list, "_nl_s%d_%d", id, i);
+    } else {
+        if (unwrap) emit_literal(list, "gc_unwrap(");
+        build_expr(list, arg, env);
+        if (unwrap) emit_literal(list, ")");
+    }
+}
+
+static void seq_end(WorkList *list, int id) {
+    if (id) emit_literal(list, "; })");
+}
+
 static void build_expr(WorkList *list, ASTNode *expr, Environment *env) {
     if (!expr) return;
     
@@ -953,38 +1023,49 @@ static void build_expr(WorkList *list, ASTNode *expr, Environment *env) {
                 
                 if (is_string_comp) {
                     /* String comparison: strcmp(a, b) == 0 */
+                    int seq = seq_begin(list, expr->as.prefix_op.args, 2, NULL, env);
                     emit_literal(list, "(strcmp(");
-                    build_expr(list, expr->as.prefix_op.args[0], env);
+                    seq_arg(list, seq, 0, expr->as.prefix_op.args[0], false, env);
                     emit_literal(list, ", ");
-                    build_expr(list, expr->as.prefix_op.args[1], env);
+                    seq_arg(list, seq, 1, expr->as.prefix_op.args[1], false, env);
                     if (op == TOKEN_EQ) {
                         emit_literal(list, ") == 0)");
                     } else {
                         emit_literal(list, ") != 0)");
                     }
+                    seq_end(list, seq);
                 } else if (is_string_concat) {
                     /* String concatenation: nl_str_concat(a, b) */
+                    int seq = seq_begin(list, expr->as.prefix_op.args, 2, NULL, env);
                     emit_literal(list, "nl_str_concat(");
-                    build_expr(list, expr->as.prefix_op.args[0], env);
+                    seq_arg(list, seq, 0, expr->as.prefix_op.args[0], false, env);
                     emit_literal(list, ", ");
-                    build_expr(list, expr->as.prefix_op.args[1], env);
+                    seq_arg(list, seq, 1, expr->as.prefix_op.args[1], false, env);
                     emit_literal(list, ")");
+                    seq_end(list, seq);
                 } else if ((op == TOKEN_SLASH || op == TOKEN_PERCENT) && op_t1 == TYPE_INT && op_t2 == TYPE_INT) {
                     /* INT64_MIN / -1 and INT64_MIN % -1 overflow in C (SIGFPE on x86); integers
                      * wrap, so integer division goes through helpers that handle a divisor of -1. */
+                    int seq = seq_begin(list, expr->as.prefix_op.args, 2, NULL, env);
                     emit_literal(list, op == TOKEN_SLASH ? "nl_idiv(" : "nl_imod(");
-                    build_expr(list, expr->as.prefix_op.args[0], env);
+                    seq_arg(list, seq, 0, expr->as.prefix_op.args[0], false, env);
                     emit_literal(list, ", ");
-                    build_expr(list, expr->as.prefix_op.args[1], env);
+                    seq_arg(list, seq, 1, expr->as.prefix_op.args[1], false, env);
                     emit_literal(list, ")");
+                    seq_end(list, seq);
                 } else {
                     /* Regular binary operator */
                     bool needs_parens = (op == TOKEN_PLUS || op == TOKEN_MINUS || 
                                        op == TOKEN_STAR || op == TOKEN_SLASH || op == TOKEN_PERCENT ||
                                        op == TOKEN_AND || op == TOKEN_OR);
                     
+                    /* C does not order the operands of an arithmetic or comparison operator
+                     * either ("level + bump()" may read level after the call): temporaries when
+                     * the order can be observed.  && and || are sequenced by C itself. */
+                    int seq = (op == TOKEN_AND || op == TOKEN_OR) ? 0
+                              : seq_begin(list, expr->as.prefix_op.args, 2, NULL, env);
                     if (needs_parens) emit_literal(list, "(");
-                    build_expr(list, expr->as.prefix_op.args[0], env);
+                    seq_arg(list, seq, 0, expr->as.prefix_op.args[0], false, env);
                     
                     const char *op_str = NULL;
                     switch (op) {
@@ -1004,8 +1085,9 @@ static void build_expr(WorkList *list, ASTNode *expr, Environment *env) {
                         default: op_str = " OP "; break;
                     }
                     emit_literal(list, op_str);
-                    build_expr(list, expr->as.prefix_op.args[1], env);
+                    seq_arg(list, seq, 1, expr->as.prefix_op.args[1], false, env);
                     if (needs_parens) emit_literal(list, ")");
+                    seq_end(list, seq);
                 }
             } else if (arg_count == 1) {
                 /* Unary operator */
@@ -1060,13 +1142,15 @@ static void build_expr(WorkList *list, ASTNode *expr, Environment *env) {
             if (!func_name) {
                 /* This is a function pointer call - use func_expr */
                 if (expr->as.call.func_expr) {
+                    int seq = seq_begin(list, expr->as.call.args, expr->as.call.arg_count, NULL, env);
                     build_expr(list, expr->as.call.func_expr, env);
                     emit_literal(list, "(");
                     for (int i = 0; i < expr->as.call.arg_count; i++) {
                         if (i > 0) emit_literal(list, ", ");
-                        build_expr(list, expr->as.call.args[i], env);
+                        seq_arg(list, seq, i, expr->as.call.args[i], false, env);
                     }
                     emit_literal(list, ")");
+                    seq_end(list, seq);
                 }
                 break;
             }
@@ -1696,13 +1780,15 @@ static void build_expr(WorkList *list, ASTNode *expr, Environment *env) {
                         snprintf(func_buf, sizeof(func_buf), "nl_array_set_%s", type_suffix);
                     }
                     
+                    int seq = seq_begin(list, expr->as.call.args, expr->as.call.arg_count, NULL, env);
                     emit_literal(list, func_buf);
                     emit_literal(list, "(");
                     for (int i = 0; i < expr->as.call.arg_count; i++) {
                         if (i > 0) emit_literal(list, ", ");
-                        build_expr(list, expr->as.call.args[i], env);
+                        seq_arg(list, seq, i, expr->as.call.args[i], false, env);
                     }
                     emit_literal(list, ")");
+                    seq_end(list, seq);
                 }
             }
             /* Special handling for array_new() - creates new dynamic array with size and initial value */
@@ -1850,12 +1936,14 @@ static void build_expr(WorkList *list, ASTNode *expr, Environment *env) {
                     char func_buf[64];
                     snprintf(func_buf, sizeof(func_buf), "dyn_array_push_%s", type_suffix);
                     
+                    int seq = seq_begin(list, expr->as.call.args, 2, NULL, env);
                     emit_literal(list, func_buf);
                     emit_literal(list, "(");
-                    build_expr(list, expr->as.call.args[0], env);  /* array */
+                    seq_arg(list, seq, 0, expr->as.call.args[0], false, env);  /* array */
                     emit_literal(list, ", ");
-                    build_expr(list, expr->as.call.args[1], env);  /* value */
+                    seq_arg(list, seq, 1, expr->as.call.args[1], false, env);  /* value */
                     emit_literal(list, ")");
+                    seq_end(list, seq);
                 }
             }
             else if (strcmp(func_name, "array_pop") == 0 && expr->as.call.arg_count == 1) {
@@ -1958,12 +2046,14 @@ static void build_expr(WorkList *list, ASTNode *expr, Environment *env) {
                     /* Generate: dyn_array_get_<type>(arr, idx) */
                     char func_buf[128];
                     snprintf(func_buf, sizeof(func_buf), "dyn_array_get_%s", type_suffix);
+                    int seq = seq_begin(list, expr->as.call.args, 2, NULL, env);
                     emit_literal(list, func_buf);
                     emit_literal(list, "(");
-                    build_expr(list, expr->as.call.args[0], env);  /* array */
+                    seq_arg(list, seq, 0, expr->as.call.args[0], false, env);  /* array */
                     emit_literal(list, ", ");
-                    build_expr(list, expr->as.call.args[1], env);  /* index */
+                    seq_arg(list, seq, 1, expr->as.call.args[1], false, env);  /* index */
                     emit_literal(list, ")");
+                    seq_end(list, seq);
                 }
             }
             else {
@@ -2000,17 +2090,42 @@ static void build_expr(WorkList *list, ASTNode *expr, Environment *env) {
                     }
                 }
 
+                /* ARC: which arguments are opaque values that need unwrapping */
+                bool *unwrap_args = NULL;
+                if (expr->as.call.arg_count > 0) {
+                    unwrap_args = calloc((size_t)expr->as.call.arg_count, sizeof(bool));
+                }
+                for (int i = 0; unwrap_args && i < expr->as.call.arg_count; i++) {
+                    if (needs_unwrap_check && func_info && i < func_info->param_count && env) {
+                        Type param_type = func_info->params[i].type;
+                        if (param_type == TYPE_STRUCT && func_info->params[i].struct_type_name) {
+                            if (env_get_opaque_type(env, func_info->params[i].struct_type_name)) unwrap_args[i] = true;
+                        } else if (param_type == TYPE_OPAQUE) {
+                            unwrap_args[i] = true;
+                        }
+                    }
+                }
+
+                /* Arguments are evaluated left to right (temporaries when the order can be observed).
+                 * map_function_name() returns a static buffer that the arguments' own calls reuse. */
+                char *call_name = strdup(mapped_name);
+                int seq = seq_begin(list, expr->as.call.args, expr->as.call.arg_count, unwrap_args, env);
+
                 /* If wrapping needed, emit gc_wrap_external( */
                 if (needs_wrapping) {
                     emit_literal(list, "gc_wrap_external(");
                 }
 
-                emit_literal(list, mapped_name);
+                emit_literal(list, call_name);
                 emit_literal(list, "(");
 
                 /* Emit arguments - unwrap if opaque type */
                 for (int i = 0; i < expr->as.call.arg_count; i++) {
                     if (i > 0) emit_literal(list, ", ");
+                    if (seq) {
+                        seq_arg(list, seq, i, expr->as.call.args[i], false, env);
+                        continue;
+                    }
 
                     /* ARC: Check if parameter is opaque type that needs unwrapping */
                     bool needs_unwrap = false;
@@ -2044,6 +2159,9 @@ static void build_expr(WorkList *list, ASTNode *expr, Environment *env) {
                     emit_literal(list, func_info->cleanup_function);
                     emit_literal(list, ")");
                 }
+                seq_end(list, seq);
+                free(unwrap_args);
+                free(call_name);
             }
             break;
         }
@@ -2058,19 +2176,23 @@ static void build_expr(WorkList *list, ASTNode *expr, Environment *env) {
             sprintf(qualified_name, "%s.%s", module_alias, function_name);
             
             /* Map to C function name */
-            const char *c_name = map_function_name(qualified_name, env);
+            /* (copied: the static buffer is reused while the arguments are built) */
+            char *c_name = strdup(map_function_name(qualified_name, env));
             
+            int seq = seq_begin(list, expr->as.module_qualified_call.args, expr->as.module_qualified_call.arg_count, NULL, env);
             emit_literal(list, c_name);
             emit_literal(list, "(");
             
             /* Emit arguments */
             for (int i = 0; i < expr->as.module_qualified_call.arg_count; i++) {
                 if (i > 0) emit_literal(list, ", ");
-                build_expr(list, expr->as.module_qualified_call.args[i], env);
+                seq_arg(list, seq, i, expr->as.module_qualified_call.args[i], false, env);
             }
             
             emit_literal(list, ")");
+            seq_end(list, seq);
             
+            free(c_name);
             free(qualified_name);
             break;
         }
@@ -2439,40 +2561,50 @@ static void build_expr(WorkList *list, ASTNode *expr, Environment *env) {
                 
                 /* Generate call to appropriate helper function */
                 if (elem_type == TYPE_INT) {
+                    int seq = seq_begin(list, expr->as.array_literal.elements, count, NULL, env);
                     emit_formatted(list, "dynarray_literal_int(%d", count);
                     for (int i = 0; i < count; i++) {
                         emit_literal(list, ", ");
-                        build_expr(list, expr->as.array_literal.elements[i], env);
+                        seq_arg(list, seq, i, expr->as.array_literal.elements[i], false, env);
                     }
                     emit_literal(list, ")");
+                    seq_end(list, seq);
                 } else if (elem_type == TYPE_U8) {
+                    int seq = seq_begin(list, expr->as.array_literal.elements, count, NULL, env);
                     emit_formatted(list, "dynarray_literal_u8(%d", count);
                     for (int i = 0; i < count; i++) {
                         emit_literal(list, ", ");
-                        build_expr(list, expr->as.array_literal.elements[i], env);
+                        seq_arg(list, seq, i, expr->as.array_literal.elements[i], false, env);
                     }
                     emit_literal(list, ")");
+                    seq_end(list, seq);
                 } else if (elem_type == TYPE_FLOAT) {
+                    int seq = seq_begin(list, expr->as.array_literal.elements, count, NULL, env);
                     emit_formatted(list, "dynarray_literal_float(%d", count);
                     for (int i = 0; i < count; i++) {
                         emit_literal(list, ", ");
-                        build_expr(list, expr->as.array_literal.elements[i], env);
+                        seq_arg(list, seq, i, expr->as.array_literal.elements[i], false, env);
                     }
                     emit_literal(list, ")");
+                    seq_end(list, seq);
                 } else if (elem_type == TYPE_STRING) {
+                    int seq = seq_begin(list, expr->as.array_literal.elements, count, NULL, env);
                     emit_formatted(list, "dynarray_literal_string(%d", count);
                     for (int i = 0; i < count; i++) {
                         emit_literal(list, ", ");
-                        build_expr(list, expr->as.array_literal.elements[i], env);
+                        seq_arg(list, seq, i, expr->as.array_literal.elements[i], false, env);
                     }
                     emit_literal(list, ")");
+                    seq_end(list, seq);
                 } else if (elem_type == TYPE_BOOL) {
+                    int seq = seq_begin(list, expr->as.array_literal.elements, count, NULL, env);
                     emit_formatted(list, "dynarray_literal_bool(%d", count);
                     for (int i = 0; i < count; i++) {
                         emit_literal(list, ", ");
-                        build_expr(list, expr->as.array_literal.elements[i], env);
+                        seq_arg(list, seq, i, expr->as.array_literal.elements[i], false, env);
                     }
                     emit_literal(list, ")");
+                    seq_end(list, seq);
                 } else {
                     /* For other types, fallback to old behavior */
                     const char *c_type = type_to_c(elem_type);
